@@ -16,6 +16,7 @@ def install(I):
     M["__getitem__"] = getitem
     M["__setitem__"] = setitem
     M["__delitem__"] = delitem
+    M["dataclasses.field"] = _dc_field
     # constants of dpkt (values from dpkt 1.9.8's source; RFC 793 flag bits, IANA protocol numbers, IEEE ethertypes)
     for k, v in {"tcp.TH_FIN": 1, "tcp.TH_SYN": 2, "tcp.TH_RST": 4, "tcp.TH_PUSH": 8, "tcp.TH_ACK": 16, "tcp.TH_URG": 32, "tcp.TH_ECE": 64, "tcp.TH_CWR": 128,
                  "ip.IP_PROTO_TCP": 6, "ip.IP_PROTO_UDP": 17, "ip.IP_PROTO_ICMP": 1, "ip.IP_PROTO_IP6": 41, "ip.IP_PROTO_ICMP6": 58,
@@ -204,6 +205,16 @@ def m_zip(I, *its):
     return ZipVal(list(its))
 
 
+_MISSING = object()
+
+
+def _dc_field(I, default=_MISSING, default_factory=_MISSING, **kw):
+    from .interp import DataclassField
+    if any(k not in ("repr", "compare", "hash", "metadata", "init") or (k == "init" and v is not True) for k, v in kw.items()):
+        raise Unsupported("dataclasses.field(%s)" % ", ".join(kw))
+    return DataclassField(default is not _MISSING, None if default is _MISSING else default, None if default_factory is _MISSING else default_factory)
+
+
 def m_list(I, x=()):
     if hasattr(x, "pyvc_copy"):
         return x.pyvc_copy(I)               # a list given by ghost structure: its copy is a snapshot of that structure
@@ -273,9 +284,17 @@ def m_max(I, *a):
 
 
 def m_type(I, x):
-    from .interp import Obj
+    from .interp import Obj, Builtin
     if isinstance(x, Obj) and x.cls is not None:
         return x.cls
+    b = "builtins."
+    for name, test in (("bool", lambda v: isinstance(v, (bool, core.SymBool))), ("int", lambda v: isinstance(v, (int, SymInt))),
+                       ("bytearray", lambda v: isinstance(v, ByteArr)), ("bytes", lambda v: isinstance(v, (bytes, SymBytes))),
+                       ("list", lambda v: isinstance(v, list)), ("dict", lambda v: isinstance(v, dict)), ("str", lambda v: isinstance(v, str)),
+                       ("tuple", lambda v: isinstance(v, tuple))):
+        if test(x):
+            t = I.models[b + name]
+            return t if isinstance(t, Builtin) else Builtin(name, t)
     raise Unsupported("type() of %s" % type(x).__name__)
 
 
